@@ -102,9 +102,7 @@ def specAdd (args : List Exon) (t : List String) : Option String :=
     | _, _, _, _ => some "unparsable-observation"
   | _ => some "unparsable-observation"
 
-structure XsState where
-  h : Heap
-  s : Slice
+abbrev XsState := Heap × Slice
 
 def xsStep (st : XsState) (op : String) (ob : String) : Option (XsState × Step) :=
   match splitOp op with
@@ -112,27 +110,25 @@ def xsStep (st : XsState) (op : String) (ob : String) : Option (XsState × Step)
     if k == "a" || k == "d" then
       match parseExons arg with
       | some args =>
-        let (h', r, e) := add st.h st.s args
-        let shared := r.arr == st.s.arr && cap h' r > 0 && cap h' st.s > 0
-        let m := s!"{errCode e} {st.s.len} {showExons (cells st.h st.s)} {showExons (cells h' st.s)} {showExons (read h' r)} {cap h' r} {showExons args} {showBool shared}"
-        let spare := cap st.h st.s > st.s.len
+        let (h', r, e) := add st.1 st.2 args
+        let shared := r.arr == st.2.arr && cap h' r > 0 && cap h' st.2 > 0
+        let m := s!"{errCode e} {st.2.len} {showExons (cells st.1 st.2)} {showExons (cells h' st.2)} {showExons (read h' r)} {cap h' r} {showExons args} {showBool shared}"
+        let spare := cap st.1 st.2 > st.2.len
         let tags := (if e.isSome then ["rejected", "nt", "err-" ++ errCode e] ++ (if spare then ["rejected-with-spare-capacity"] else [])
                      else ["accepted"] ++ (if args.isEmpty then [] else ["nt"]))
-        some ({ h := h', s := if k == "a" then r else st.s }, { model := m, viol := specAdd args (tokens ob), tags })
+        some (xsApply st (.add args (k == "a")), { model := m, viol := specAdd args (tokens ob), tags })
       | none => none
     else if k == "t" then
       match parseNat arg with
       | some j =>
-        let j := min j (cap st.h st.s)
-        let s' := { st.s with len := j }
-        some ({ st with s := s' }, { model := s!"t {s'.len} {cap st.h s'}", tags := ["reslice"] })
+        let st' := xsApply st (.upTo j)
+        some (st', { model := s!"t {st'.2.len} {cap st'.1 st'.2}", tags := ["reslice"] })
       | none => none
     else if k == "o" then
       match parseNat arg with
       | some j =>
-        let j := min j st.s.len
-        let s' : Slice := { st.s with off := st.s.off + j, len := st.s.len - j }
-        some ({ st with s := s' }, { model := s!"o {s'.len} {cap st.h s'}", tags := ["reslice"] })
+        let st' := xsApply st (.drop j)
+        some (st', { model := s!"o {st'.2.len} {cap st'.1 st'.2}", tags := ["reslice"] })
       | none => none
     else none
   | none => none
@@ -146,8 +142,7 @@ def runHist {σ} (step : σ → String → String → Option (σ × Step)) : σ 
 
 def handleXS (n c : Nat) (init : List Exon) (ops : List String) (obs : String) : Verdict :=
   if init.length ≠ n || c < n then bad "xs header" else
-  let h : Heap := Heap.init ++ [init ++ List.replicate (c - n) zeroExon]
-  match runHist xsStep { h, s := ⟨1, 0, n⟩ } ops (pieces obs) with
+  match runHist xsStep (xsInit n (init ++ List.replicate (c - n) zeroExon)) ops (pieces obs) with
   | some steps => finish ["xs"] steps obs
   | none => bad "xs op"
 
@@ -388,12 +383,6 @@ def parsePiece (s : String) : Option Piece :=
     pure (a, b)
   | _ => none
 
-/-- introns are exactly the gaps between consecutive exons -/
-def intronsFit : List Exon → List Intron → Bool
-  | a :: b :: rest, i :: is =>
-    decide (i.start = a.stop) && decide (i.stop = b.start) && decide (i.loc = b.loc) && intronsFit (b :: rest) is
-  | _, _ => true
-
 /-- The statement of C20 for a transcript after one operation, on the implementation's
     observation; `prev` is the exon set the implementation showed before the operation. -/
 def specTx (cfg : TxCfg) (kind : String) (args prev : List Exon) (t : List String) : Option String × List Exon :=
@@ -455,15 +444,10 @@ def txStep (cfg : TxCfg) (st : TxState × List Exon) (op : String) (ob : String)
     | some args =>
       let (ms, prev) := st
       let res : Option (Heap × Tx × Option Err) :=
-        if k == "S" then some (setExons ms.h ms.t args)
-        else if k == "A" then
-          let (h', _, e) := add ms.h ms.t.exons args
-          some (h', ms.t, e)
-        else if k == "R" then
-          match add ms.h ms.t.exons args with
-          | (h', _, some e) => some (h', ms.t, some e)
-          | (h', r, none) => some (setExons h' ms.t (read h' r))
-        else none
+        (if k == "S" then some (TxOp.set args) else if k == "A" then some (TxOp.addDrop args)
+         else if k == "R" then some (TxOp.addSet args) else none).map fun op =>
+          match txApply (ms.h, ms.t) op with
+          | ((h', t'), e) => (h', t', e)
       match res with
       | some (h', t', e) =>
         let (viol, shown) := specTx cfg k args prev (tokens ob)
@@ -481,7 +465,7 @@ def handleTX (kind hdr chain : String) (ops : List String) (obs : String) : Verd
   match parseInts hdr, parseChainFrom 10 chain with
   | some [off, ori, cs, ce], some loc =>
     let cfg : TxCfg := { coding := kind == "c", node := ⟨1, off, some ori⟩, loc, cdsStart := cs, cdsEnd := ce }
-    match runHist (txStep cfg) ({ h := Heap.init, t := { id := 1, exons := Slice.nil } }, []) ops (pieces obs) with
+    match runHist (txStep cfg) ({ h := (txInit 1).1, t := (txInit 1).2 }, []) ops (pieces obs) with
     | some steps =>
       let o := orientProduct (cfg.node :: cfg.loc)
       let base := ["tx", if cfg.coding then "coding" else "noncoding", s!"levels-{loc.length + 1}",
